@@ -455,6 +455,10 @@ preserving('DT14-ok-float-cast', ['C18'], edit=[('python/numqi/state/_internal.p
 preserving('FW2-ok-option-forwarded', ['C08'], edit=[('python/numqi/gate/_pauli.py',
            "        ret = _pauli_index_int_to_F2(index, num_qubit, with_sign)",
            "        ret = _pauli_index_int_to_F2(int(index), num_qubit, with_sign=with_sign)")])
+breaking('SELF1-self-difference', {'C13': 'SELF1'}, edit=[('python/numqi/entangle/eof.py',
+         "        tmp0 = torch.maximum(self._eps, 2*(prob*prob - purity))", "        tmp0 = torch.maximum(self._eps, 2*(purity - purity))")])
+breaking('SELF1-identical-arms', {'C18': 'SELF1'}, edit=[('python/numqi/entangle/upb.py',
+         "hf_is_prime = lambda n: (n>=2) and", "hf_parity = lambda n: (1 if n%2 else 1)\nhf_is_prime = lambda n: (n>=2) and")])
 breaking('refix-get_gme_2qubit', {'C13': 'F2', 'C05': 'F2'}, patch_reverse='fix_78cd862.diff')
 
 # ---- behaviour-preserving edits for the second half of the round-3 rules
